@@ -13,6 +13,8 @@ EXPLANATION = (
     "insert_internal is an unconditional placement attempt in bucket i1 that yields Ok on success."
     " R14-full-scan: a bucket helper returns false only after the iterator over the bucket is exhausted (loop form) or is an `any` over the whole range. C12's restore rules are applied to the cuckoo filter."
 )
+from .common import NEW_WRITERS_NOTE as _NWN
+EXPLANATION = EXPLANATION + _NWN % "14"
 NOT_DECIDED = "exact multiset behaviour through arbitrary eviction chains for every RNG outcome (needs reachability facts about table contents)"
 ASSUMPTIONS = ["IntVec::get/IntVecMut::set read/write exactly the addressed element", "payload constants of Result::Ok aggregates are literal booleans"]
 
@@ -80,6 +82,8 @@ def find_form(ctx, h):
 
 
 def run(ctx):
+    from .common import check_new_writers
+    check_new_writers(ctx, "R14-new-writers", ['filters::cuckoofilter::CuckooFilter'])
     prog = ctx.prog
     ins = ctx.anchor(INSERT)
     ii = ctx.anchor(CF + "::insert_internal")
